@@ -53,6 +53,7 @@ def main():
         sh(["git", "-C", "/repo", "checkout", "--", "."])
         for ev, text in saved.items():      # evidence belongs to the unchanged tree
             open(ev, "w").write(text)
+        sh([sys.executable, os.path.join(V, "tools", "xlate_run.py")])      # lean/Yarel/Gen back to what the unchanged tree says
         left = sh(["git", "-C", "/repo", "status", "--porcelain"]).stdout.strip()
         if left:
             print("WARNING: /repo not clean after revert:\n" + left)
